@@ -45,5 +45,7 @@ func (f *TwoWayStreamInputStream) Call(s *slip.Scope, args slip.List, depth int)
 	if !ok {
 		slip.TypePanic(s, depth, "two-way-stream", args[0], "two-way-stream")
 	}
-	return es.Reader.(slip.Object)
+	obj, _ := es.Reader.(slip.Object) // nil once the stream is closed
+
+	return obj
 }
